@@ -88,6 +88,18 @@ class Other(Steps):
         super().define(spec)
 
 
+class Unsavable(Process):
+    """A process that runs fine but whose checkpoint cannot be written (implementation-only probe of C17: a task that asks
+    for persistence must then be refused with that error, not executed unpersisted)."""
+
+    def run(self):
+        EVENTS.append(('step', self.pid, 0))
+        return 1
+
+    def save_instance_state(self, out_state, save_context):
+        raise UserError('cannot be saved')
+
+
 CLASSES = {'Add': Add, 'Steps': Steps, 'Other': Other}
 
 
